@@ -109,7 +109,7 @@ class Chain:
             shutil.rmtree(self.wd, ignore_errors=True)
 
     # ---- opening a tunnel through listener kind lk towards connector ck
-    async def open_tunnel(self, lk, ck, host_form="ipv4", early=b"", bank=1, split=None, timeout=10.0, rcvbuf=None):
+    async def open_tunnel(self, lk, ck, host_form="ipv4", early=b"", bank=1, split=None, timeout=10.0, rcvbuf=None, headers=()):
         """returns (Conn, ok, detail). ok=True when the proxy reported success."""
         oport = (self.oports if bank == 1 else self.oports2)[ck]
         host = {"ipv4": "127.0.0.1", "domain": "localhost", "ipv6": "::1"}[host_form]
@@ -122,15 +122,15 @@ class Chain:
         async def go():
             if lk == "http":
                 c = await open_conn("127.0.0.1", P["A.http"])
-                st, _ = await http_connect(c, host, oport, early, split=split)
+                st, _ = await http_connect(c, host, oport, early, headers=headers, split=split)
                 return c, st == 200, st
             if lk == "https":
                 c = await open_conn("127.0.0.1", P["A.https"], tls=client_ssl())
-                st, _ = await http_connect(c, host, oport, early, split=split)
+                st, _ = await http_connect(c, host, oport, early, headers=headers, split=split)
                 return c, st == 200, st
             if lk == "quic":
                 c = await open_conn("127.0.0.1", P["C.http"])
-                st, _ = await http_connect(c, host, oport, early, split=split)
+                st, _ = await http_connect(c, host, oport, early, headers=headers, split=split)
                 return c, st == 200, st
             if lk == "socks5":
                 c = await open_conn("127.0.0.1", P["A.socks"])
